@@ -819,20 +819,43 @@ class World(object):
         snapshots, each once, as the 5-tuples the handler sees."""
         nodes = self.tree.nodes
         names = set()
+        sources = []
+        hist = z.TRACE_HISTORY
+        for node_name in sorted(nodes[hist].children):
+            blob = nodes[hist + '/' + node_name].data
+            mine = [row[0] for row in self._opened('trace', blob)
+                    if row[0].startswith(inst + ',')]
+            names.update(mine)
+            sources.append((node_name,
+                            [self._as_delivered(name) for name in mine]))
         shard = z.path.trace(inst)
         if shard in nodes:
-            names.update(name for name in nodes[shard].children
-                         if name.startswith(inst + ','))
-        hist = z.TRACE_HISTORY
-        for node_name in nodes[hist].children:
-            blob = nodes[hist + '/' + node_name].data
-            names.update(row[0] for row in self._opened('trace', blob)
-                         if row[0].startswith(inst + ','))
+            mine = [name for name in nodes[shard].children
+                    if name.startswith(inst + ',')]
+            names.update(mine)
+            sources.append(('live',
+                            [self._as_delivered(name) for name in mine]))
         want = []
         for name in sorted(names):
-            obj, stamp, src, etype, edata = name.split(',')
-            want.append((float(stamp), src, obj, etype, edata))
-        return want
+            want.append(self._as_delivered(name))
+        return want, sources
+
+    @staticmethod
+    def _as_delivered(name):
+        obj, stamp, src, etype, edata = name.split(',')
+        return (float(stamp), src, obj, etype, edata)
+
+    @staticmethod
+    def _overtaken(item, sources):
+        """item sits in a later source (newer snapshot / live) than an event
+        of the same instance with a later timestamp."""
+        seen_later = False
+        for _label, items in sources:
+            if item in items and seen_later:
+                return True
+            if any(other[0] > item[0] for other in items):
+                seen_later = True
+        return False
 
     def gap_instances(self):
         """Unscheduled instances whose archived events sit on both sides of
@@ -935,13 +958,25 @@ class World(object):
                                for evt in self.events['trace'])):
             if inst in self.scheduled:
                 continue        # the reader skips the history while scheduled
-            want = self._expected_delivery(inst)
-            got = self.read_trace(inst)
+            want, sources = self._expected_delivery(inst)
+            listing = self.case.get('reader_listing', 'sorted')
+            got = self.read_trace(inst, sorted_listing=(listing == 'sorted'))
             summary['reader_runs'] += 1
             missing = [item for item in want if item not in got]
             if missing:
+                why = stage
+                if listing != 'sorted' and not [
+                        item for item in want
+                        if item not in self.read_trace(inst, True)]:
+                    # delivered when /trace.history is listed in sequence
+                    # order: the reader relies on the order of get_children
+                    why = 'unsorted-history-listing'
+                elif all(self._overtaken(item, sources) for item in missing):
+                    # published late: an event of the instance with a later
+                    # timestamp was archived before this one arrived
+                    why = 'older-than-already-archived'
                 raise Violation(
-                    'c18.reader.event-not-delivered.%s' % stage,
+                    'c18.reader.event-not-delivered.%s' % why,
                     '%s run: AppTraceLoop(%s).run(snapshot=True) delivered '
                     '%d of %d events; not delivered: %r (live or a row of a '
                     'snapshot in %r)' % (
